@@ -16,6 +16,7 @@ import GrcovModel.Drv.C03JsonBytes
 import GrcovModel.Drv.C05Cli
 import GrcovModel.Drv.C02Run
 import GrcovModel.Drv.C03Html
+import GrcovModel.Drv.C14Text
 open Grcov.Drv
 
 def step (line : String) : String :=
@@ -65,6 +66,10 @@ def step (line : String) : String :=
   | "cli.run" :: args => handleCliRun args
   | "run.all" :: args => Grcov.Drv.RunAll.handleRunAll args
   | "c03.htmlb" :: args => Grcov.Drv.C03Html.handle args
+  | "c14.text.lcov" :: args => Grcov.Drv.C14Text.handleLcov args
+  | "c14.text.gcov" :: args => Grcov.Drv.C14Text.handleGcov args
+  | "c14.text.gcovjson" :: args => Grcov.Drv.C14Text.handleGcovJson args
+  | "c14.text.jacoco" :: args => Grcov.Drv.C14Text.handleJacoco args
   | _ => "bad-op"
 
 partial def loop (h : IO.FS.Stream) (out : IO.FS.Stream) : IO Unit := do
